@@ -52,7 +52,7 @@ CLAIMED = {
                 note='OS scheduling and input() per stdin kind observed, not proved; GIL atomicity trusted'),
     'C15': dict(design='§6 C15, App. B', technique='Lean 4 proof (exit/resume exactness for arbitrary starting files, no-replay, enumerator state split) + scripted quits at every guess position with 2-3 resume cycles',
                 text='printed ++ remaining(files left) = remaining(start) for every schedule; option removed after the restored level; real sessions quit at each j and resumed, concatenation = uninterrupted stream.',
-                note='pickle/configparser round trips trusted; quit inside the very last Markov pre-terminal is a recorded known finding'),
+                note='pickle/configparser round trips trusted; quit inside the very last Markov pre-terminal is a recorded known finding (C15_last_unit_loss shows the excluded point in the model)'),
     'C11': dict(design='§6 C11', technique='Lean 4 proof (scorer = trainer = levelOf over loaded tables; with C10: guesser emits s at L iff trainer level L) + correspondence of the three real implementations',
                 text='find_omen_level, OmenScorer.parse and the real MarkovCracker agree with each other and with the model on training, perturbed and boundary strings; guesser side proved exact in C10.',
                 note='smoothing (log/floor) modelled not verified: levels are inputs'),
@@ -62,9 +62,9 @@ CLAIMED = {
     'C19': dict(design='§6 C19', technique='Lean 4 proof (readLine: hex = plain, count = repeats, skips, no leak, fold) + reader correspondence + trained-ruleset comparison',
                 text='Theorems for all lines / passwords / counts with int(), hex-decode and encode as parameters; real read_password sequences compared with the model; rulesets trained from the three encodings compared file by file.',
                 note='codec internals and int() are runtime parameters'),
-    'C20': dict(design='§6 C20', technique='Lean 4 proof (three filters = List.filter on rows, tokens = labels) + exact text diff of edit_rules + directory hashes',
-                text='Filter theorems for all well-formed grammar files and options; real edit_rules output compared byte for byte; other files hashed.',
-                note='user regex abstract; X label length is a recorded known finding'),
+    'C20': dict(design='§6 C20, §11.4', technique='Lean 4 proof (three filters = List.filter on rows, tokens = labels; the length promise: every guess of a kept structure within the bounds, a removed structure has a guess outside) + exact text diff of edit_rules + directory hashes + every guess of edited complete rulesets produced by the real guesser',
+                text='Filter theorems for all well-formed grammar files, options and context-value lengths; C20_guess_lengths / C20_only_failing_removed relate the (shortest, longest) label arithmetic to the guess lengths; real edit_rules output compared byte for byte with the model; other files hashed; real guesses before and after editing checked against the bounds.',
+                note='user regex abstract; letters whose upper-casing is longer than one character (ß → SS) under a U mask are a recorded known finding (C20_case_expansion_witness)'),
 }
 NOT_YET = 'check not built yet in this round (machinery under construction); see DESIGN.md §6'
 
